@@ -1,5 +1,7 @@
 import Martian.Typing
 import Martian.TypingPipeline
+import Martian.TypingRun
+import Martian.TypingStrict
 import Driver.Util
 import Driver.C17
 
@@ -39,6 +41,9 @@ Pipelines (Martian/TypingPipeline.lean):
                                  | `call <i> binds <cls,…>` | `unused <hexlist>` | `ret <cls,…>` | `retain <i>`
                                  (first failure, in the order of `checkPipeline`; must agree with `validPipeline`)
   top     <cstm>               → `ok <shape>` | `bad <cls,…>`   (top-level call statement, `checkTop`)
+  path    <type|-> <type> <json> <path> new|old → `<json>` | `none`   (`pathVal` / `wholeRT`: LazyArgumentMap.Path
+                                 with destination type, source type, value; `old` = before repair 85e056c)
+  hyp     <env> <type> <exp>   → `<t.wf> <e.wf> <holeFree>`
   sretain <nouts> (<out> <type>){nouts} <hexlist>   → `true` | `false`
   strict  <env> <type> <exp>   → `<validExp> <overStrict>`
 -/
@@ -361,6 +366,29 @@ def handle (op : String) (args : List String) : Option String :=
   | "top", [c] => do
     let c ← whole parseStm c
     pure (diagTop c)
+  | "path", [dest, t, v, p, how] => do
+    -- LazyArgumentMap.Path(p, t, dest) on the value v (after / before repair 85e056c)
+    let dest ← (if dest == "-" then some none else (whole parseTy dest).map some)
+    let t ← whole parseTy t
+    let v ← whole parseJ v
+    let p ← parseHexList p
+    let r := match p with
+      | [] => (match dest with | some d => wholeRT d v | none => some v)
+      | _ => if how == "old" then pathValG peelMapDOld dest t v p else pathVal dest t v p
+    match r with
+    | some w => pure (showJ w)
+    | none => pure "none"
+  | "hyp", [env, t, e] => do
+    -- the decidable hypotheses of the soundness theorems on one binding
+    let Γ ← whole parseEnv env
+    let t ← whole parseTy t
+    let e ← whole parseExp e
+    pure (" ".intercalate [boolStr t.wf, boolStr e.wf, boolStr (holeFree Γ t e)])
+  | "strict", [env, t, e] => do
+    let Γ ← whole parseEnv env
+    let t ← whole parseTy t
+    let e ← whole parseExp e
+    pure (" ".intercalate [boolStr (validExp Γ t e), boolStr (overStrict Γ t e)])
   | "sretain", [outs, ids] => do
     let outs ← whole (counted parseTyped) outs
     let ids ← parseHexList ids
